@@ -4,7 +4,7 @@ import os
 import re
 import sys
 sys.path.insert(0, os.path.dirname(os.path.dirname(os.path.abspath(__file__))))
-from props.common import main, Run, run_child, ALL_SIDECARS  # noqa: E402
+from props.common import main, Run, run_child, ALL_SIDECARS, bounded_companion  # noqa: E402
 from pyvc.calls import Contract  # noqa: E402
 
 SIDE = ALL_SIDECARS
@@ -54,6 +54,9 @@ def make_replayer(run):
 def build(run: Run):
     eng = run.eng
     run.replayers.append(make_replayer(run))
+    bounded_companion(run, "C14", "edits_diff.py", [str(run.seed), "300"], what="replay/edits_diff.py: 300 random edit sequences (insert, del, set, append, extend, pop, inject, "
+                      "reads in between) over corpus pickles: every view equals a fresh Pickled over the same opcodes; dumps() == concatenation of the opcodes' data "
+                      "after every step")
     run.verify(*OWN)
     src, path = mixin_source()
     run.repo.add_virtual_module("abc_seq", src)
